@@ -154,7 +154,11 @@ fn resample2(rng: &mut Rng) {
             let off = rc.points().iter().map(|p| poly_dist2(p, c.points())).fold(0.0, f64::max);
             let fg = (rc.at_front().point() - c.at_front().point()).norm();
             let lg = (rc.at_back().point() - c.at_back().point()).norm();
-            let fl = c.at_closest_to_point(&rc.at_front().point()).length_along();
+            let mut fl = c.at_closest_to_point(&rc.at_front().point()).length_along();
+            // on a closed curve a first sample sitting on the seam can be reported at length L; it was placed at 0
+            if c.is_closed() && fl >= l - 1e-9 * (1.0 + l) {
+                fl = 0.0;
+            }
             // a closed curve resampled by spacing is re-closed by repeating its first vertex: the last
             // SAMPLE is the vertex before that
             let spacing_closed = c.is_closed() && matches!(mode, Mode::Spacing(_));
